@@ -1,7 +1,7 @@
 import TongoModel.Helpers08
 import TongoProofs.Lemmas.TlDecode
 /-! Lemmas for the network-facing helpers of C08. -/
-namespace Tongo.Tl
+namespace Tongo.TlD
 
 theorem slice_ok {b : List UInt8} {lo hi : Nat} (h1 : lo ≤ hi) (h2 : hi ≤ b.length) :
     slice b lo hi = .ok ((b.take hi).drop lo) := by
@@ -112,7 +112,7 @@ theorem liteapiRequestDecoder_np (lookup : Nat → Option Ty) (b : List UInt8) :
       · rename_i p hp
         rw [hp] at hnp; simp [Outcome.isPanic] at hnp
 
-end Tongo.Tl
+end Tongo.TlD
 
 namespace Tongo.Helpers
 
